@@ -198,6 +198,37 @@ class Record:
         return '{}({})'.format(self.rtype.name, self.values)
 
 
+class ClassValue:
+    """a plain class of the analysed module (explicit __init__ storing attributes, methods, properties)"""
+
+    def __init__(self, cdef):
+        self.cdef = cdef
+        self.name = cdef.name
+
+    def __repr__(self):
+        return 'Class({})'.format(self.name)
+
+
+class Obj:
+    """an instance of a ClassValue.  While it may still change its attributes live in the state's heap (so that branches
+    do not see each other's stores); a module-level constant object is frozen and carries them itself."""
+    _n = [0]
+
+    def __init__(self, cls):
+        self.cls = cls
+        Obj._n[0] += 1
+        self.oid = Obj._n[0]
+        self.frozen = None
+
+    def __repr__(self):
+        return '<{} #{}>'.format(self.cls.name, self.oid)
+
+
+class BoundMethod:
+    def __init__(self, obj, fdef, label):
+        self.obj, self.fdef, self.label = obj, fdef, label
+
+
 class Top:
     def __repr__(self):
         return 'TOP'
